@@ -64,6 +64,10 @@ type Options struct {
 	// The request helpers and the gRPC proxy hand consecutive requests to the instances in turn.
 	// Requires Redis (without it every instance would lock only against itself).
 	Instances int
+	// RemoteInstances starts that many further server instances, each in its own child PROCESS (the test
+	// binary re-executed as a server, see RunRemoteServerIfAsked): nothing at all is shared with them but
+	// the database, the broker and Redis - not the table of process-local locks, no package-level state.
+	RemoteInstances int
 }
 
 // Env is one in-process orda server with its fake infrastructure.
@@ -92,6 +96,8 @@ type Env struct {
 	instances int
 	svcs      []*service.OrdaService // all instances (svcs[0] == svc)
 	mgrsAll   []*managers.Managers
+	remotes   []*RemoteInstance // server instances running in child processes
+	nRemotes  int
 	rr        uint32
 	closed    bool
 	grpcSrv   *grpc.Server
@@ -117,11 +123,11 @@ func New(opts Options) (*Env, error) {
 		mg.Close()
 		return nil, err
 	}
-	e := &Env{Mongo: mg, MQTT: br, DBName: opts.DBName, cancels: make(map[int]gocontext.CancelFunc), instances: opts.Instances}
+	e := &Env{Mongo: mg, MQTT: br, DBName: opts.DBName, cancels: make(map[int]gocontext.CancelFunc), instances: opts.Instances, nRemotes: opts.RemoteInstances}
 	if e.instances < 1 {
 		e.instances = 1
 	}
-	if opts.Redis || e.instances > 1 {
+	if opts.Redis || e.instances > 1 || e.nRemotes > 0 {
 		rd, err := fakeredis.Start()
 		if err != nil {
 			br.Close()
@@ -140,6 +146,16 @@ func New(opts Options) (*Env, error) {
 			e.Redis.Close()
 		}
 		return nil, err
+	}
+	for i := 0; i < e.nRemotes; i++ {
+		r, err := startRemoteInstance(e)
+		if err != nil {
+			e.Close()
+			return nil, err
+		}
+		e.mu.Lock()
+		e.remotes = append(e.remotes, r)
+		e.mu.Unlock()
 	}
 	return e, nil
 }
@@ -239,19 +255,25 @@ func closeManagers(m *managers.Managers) {
 
 // current returns the server instance that handles the next request: the only one, or the
 // instances in turn.
-func (e *Env) current() (*service.OrdaService, *managers.Managers) {
+func (e *Env) current() (model.OrdaServiceServer, *managers.Managers) {
 	e.mu.Lock()
 	defer e.mu.Unlock()
-	if len(e.svcs) > 1 {
-		i := int(e.rr) % len(e.svcs)
+	n := len(e.svcs) + len(e.remotes)
+	if n > 1 {
+		i := int(e.rr) % n
 		e.rr++
-		return e.svcs[i], e.mgrsAll[i]
+		if i < len(e.svcs) {
+			return e.svcs[i], e.mgrsAll[i]
+		}
+		// a server instance in another process: the harness' own look into the store goes through
+		// the first in-process instance's managers
+		return e.remotes[i-len(e.svcs)], e.mgrsAll[0]
 	}
 	return e.svc, e.mgrs
 }
 
-// Instances returns the number of server instances.
-func (e *Env) Instances() int { return e.instances }
+// Instances returns the number of server instances (in this process and in child processes).
+func (e *Env) Instances() int { return e.instances + e.nRemotes }
 
 // RestartService simulates a restart of the server process: the managers and the service are thrown
 // away (MongoDB client and MQTT client disconnected) and fresh ones are built against the same
@@ -284,8 +306,12 @@ func (e *Env) Close() {
 	cancels := e.cancels
 	e.cancels = map[int]gocontext.CancelFunc{}
 	mgrs := e.mgrsAll
+	remotes := e.remotes
 	e.mu.Unlock()
 
+	for _, r := range remotes {
+		r.stop()
+	}
 	if gs != nil {
 		gs.Stop()
 	}
@@ -335,7 +361,7 @@ type callResult[R any] struct {
 // call mimics what gRPC does around a unary handler: the request is a private copy, the handler
 // gets a per-call context that is cancelled as soon as the handler returns, and the response is
 // serialised. A handler that does not return within d is abandoned (its context stays alive until Close).
-func call[Q, R proto.Message](e *Env, d time.Duration, req Q, fn func(*service.OrdaService, gocontext.Context, Q) (R, error)) (R, error, bool) {
+func call[Q, R proto.Message](e *Env, d time.Duration, req Q, fn func(model.OrdaServiceServer, gocontext.Context, Q) (R, error)) (R, error, bool) {
 	var zero R
 	in, err := roundTrip(req)
 	if err != nil {
@@ -391,7 +417,7 @@ func call[Q, R proto.Message](e *Env, d time.Duration, req Q, fn func(*service.O
 // CreateCollection calls the service's CreateCollection.
 func (e *Env) CreateCollection(name string) error {
 	_, err, timedOut := call(e, DefaultTimeout, &model.CollectionMessage{Collection: name},
-		func(s *service.OrdaService, ctx gocontext.Context, m *model.CollectionMessage) (*model.CollectionMessage, error) {
+		func(s model.OrdaServiceServer, ctx gocontext.Context, m *model.CollectionMessage) (*model.CollectionMessage, error) {
 			return s.CreateCollection(ctx, m)
 		})
 	if timedOut {
@@ -403,7 +429,7 @@ func (e *Env) CreateCollection(name string) error {
 // ResetCollection calls the service's ResetCollection.
 func (e *Env) ResetCollection(name string) error {
 	_, err, timedOut := call(e, DefaultTimeout, &model.CollectionMessage{Collection: name},
-		func(s *service.OrdaService, ctx gocontext.Context, m *model.CollectionMessage) (*model.CollectionMessage, error) {
+		func(s model.OrdaServiceServer, ctx gocontext.Context, m *model.CollectionMessage) (*model.CollectionMessage, error) {
 			return s.ResetCollection(ctx, m)
 		})
 	if timedOut {
@@ -414,21 +440,21 @@ func (e *Env) ResetCollection(name string) error {
 
 // ProcessClient calls the service's ProcessClient. The third result reports a timeout.
 func (e *Env) ProcessClient(msg *model.ClientMessage, d time.Duration) (*model.ClientMessage, error, bool) {
-	return call(e, d, msg, func(s *service.OrdaService, ctx gocontext.Context, m *model.ClientMessage) (*model.ClientMessage, error) {
+	return call(e, d, msg, func(s model.OrdaServiceServer, ctx gocontext.Context, m *model.ClientMessage) (*model.ClientMessage, error) {
 		return s.ProcessClient(ctx, m)
 	})
 }
 
 // ProcessPushPull calls the service's ProcessPushPull. The third result reports a timeout.
 func (e *Env) ProcessPushPull(msg *model.PushPullMessage, d time.Duration) (*model.PushPullMessage, error, bool) {
-	return call(e, d, msg, func(s *service.OrdaService, ctx gocontext.Context, m *model.PushPullMessage) (*model.PushPullMessage, error) {
+	return call(e, d, msg, func(s model.OrdaServiceServer, ctx gocontext.Context, m *model.PushPullMessage) (*model.PushPullMessage, error) {
 		return s.ProcessPushPull(ctx, m)
 	})
 }
 
 // PatchDocument calls the service's PatchDocument. The third result reports a timeout.
 func (e *Env) PatchDocument(msg *model.PatchMessage, d time.Duration) (*model.PatchMessage, error, bool) {
-	return call(e, d, msg, func(s *service.OrdaService, ctx gocontext.Context, m *model.PatchMessage) (*model.PatchMessage, error) {
+	return call(e, d, msg, func(s model.OrdaServiceServer, ctx gocontext.Context, m *model.PatchMessage) (*model.PatchMessage, error) {
 		return s.PatchDocument(ctx, m)
 	})
 }
@@ -468,7 +494,7 @@ func (e *Env) WaitBackground(timeout time.Duration) bool {
 	deadline := time.Now().Add(timeout)
 	pause := 50 * time.Microsecond
 	for {
-		if !BackgroundBusy() {
+		if !BackgroundBusy() && !e.remotesBusy() {
 			return true
 		}
 		if time.Now().After(deadline) {
